@@ -56,6 +56,14 @@ impl ProcessorRegistry {
         }
     }
 
+    pub(crate) fn abandon_queued_tasks_all(&self) {
+        for state in &self.states {
+            if let Some(s) = state.get() {
+                s.abandon_queued_tasks();
+            }
+        }
+    }
+
     #[cfg(test)]
     pub(crate) fn initialized_count(&self) -> usize {
         self.states.iter().filter(|s| s.get().is_some()).count()
